@@ -28,15 +28,15 @@ CHECKS = {
          "PostTransforms only in the with-transforms sub-checks; no empty schema keys (their issue path coincides with the parent's); struct/slice-level tests are data-independent in these cases so that the twin is comparable.",
          "DESIGN.md section 5 C05"),
  "C09": (RAPID + "metamorphic: permuted schema/input insertion orders x repeated runs must agree; visit orders observed",
-         "Each case is built K times with permuted field insertion order and input-map insertion order and run R times; all runs must agree on issues (path, code, type, message), issue-map keys and, on success, the destination (a third of the cases let sibling fields report one shared issue value from complex tests); $first must be one of the issues. The visit orders actually taken are observed through recorder tests and reported. Exploration; order coverage is measured, not assumed.",
+         "Each case is built K times with permuted field insertion order and input-map insertion order and run R times; all runs must agree on issues (path, code, type, message), issue-map keys and, on success, the destination (a third of the cases let sibling fields report one shared issue value from complex tests); $first must be one of the issues. A quarter of the cases run under i18n with six languages (four regional variants of one) and request configured, unconfigured and related language tags. The visit orders actually taken are observed through recorder tests and reported. Exploration; order coverage is measured, not assumed.",
          "Relies on Go's map iteration randomisation plus insertion-order forcing; excludes constructs that are order-dependent by the documented global PostTransform gating.",
          "DESIGN.md section 5 C09"),
  "C18": ("exhaustive boundary product + " + RAPID + "random magnitudes; exact big-number oracle",
-         "Destination width x source representation x boundary magnitudes enumerated completely, plus random values; the outcome must be a coerce issue or the exact (truncated / correctly rounded) number, decided with math/big; padded numeric strings, json.Number, near-integer floats, exponents up to 1e60, numbers inside typed maps (map[string]any and typed Go maps of the value's own type) and typed slices. Exhaustive over the listed boundary sets, exploration beyond.",
+         "Destination width x source representation x boundary magnitudes enumerated completely, plus random values; the outcome must be a coerce issue or the exact (truncated / correctly rounded) number, decided with math/big; padded numeric strings, json.Number, near-integer floats, exponents up to 1e60, numbers inside typed maps (map[string]any and typed Go maps of the value's own type) and typed slices, numeric user types whose String() prints another number, *big.Float. Exhaustive over the listed boundary sets, exploration beyond.",
          "Rounding to nearest on float narrowing is accepted as the same number; strings outside plain decimal/exponent syntax are only checked when rejected or exactly modelled.",
          "DESIGN.md section 5 C18"),
  "C06": (RAPID + "wild-value generator (registry of ~120 Go values spliced into valid inputs, hostile JSON / form / query / env text) + exhaustive wild-value x root-kind product; oracle: recover() around Parse",
-         "Well-formed (schema, destination) pairs (all node kinds, >8 fields, keys up to 64 bytes, Preprocess, Custom) are fed Go values in which random subtrees are replaced by values of unusual dynamic types, and documents/strings through every front end (chains of executions on one schema, each followed by the process prelude; env / form / query values from a pool of hostile short strings: every ASCII punctuation character alone, unbalanced quotes and brackets, escapes); any panic is a violation. The registry x 17 root kinds product is enumerated completely, and so is Custom[T] for 20 shapes of T (arrays, named types, structs, slices, maps, pointers, interfaces) x registry x 5 positions. Exploration (plus native fuzzing of the byte-level front ends in the thorough tier).",
+         "Well-formed (schema, destination) pairs (all node kinds, >8 fields, keys up to 64 bytes, Preprocess, Custom) are fed Go values in which random subtrees are replaced by values of unusual dynamic types, and documents/strings through every front end (chains of executions on one schema, each followed by the process prelude; env / form / query values from a pool of hostile short strings: every ASCII punctuation character alone, unbalanced quotes and brackets, escapes); any panic is a violation. The registry x 17 root kinds product is enumerated completely, so is every one-byte body and 1600 two-byte bodies through both JSON front ends, and so is Custom[T] for 20 shapes of T (arrays, named types, structs, slices, maps, pointers, interfaces) x registry x 5 positions. Exploration (plus native fuzzing of the byte-level front ends in the thorough tier).",
          "Quantifies over a finite registry of Go types; harness callbacks are nil-safe so an observed panic is zog's; termination guarded by a time limit (exit 2).",
          "DESIGN.md section 5 C06"),
  "C07": (RAPID + "generated call histories (model = same call on cleared pools) with fault injection into the sync.Pools",
